@@ -8,6 +8,7 @@
 -/
 import Avra.Ast
 import Avra.Gen.Grammar
+import Avra.Gen.Tables
 namespace Avra.Peg
 open Avra
 
@@ -458,20 +459,7 @@ def optCommentEnd (s : Str) : Bool :=
 def isLowerAlpha (c : Char) : Bool := 'a' ≤ c && c ≤ 'z'
 
 def directiveOfName (n : Str) : Directive :=
-  let tbl : List (Str × Directive) := [
-    ("byte".toList, .byte), ("cseg".toList, .cseg), ("csegsize".toList, .csegsize),
-    ("db".toList, .db), ("def".toList, .def), ("device".toList, .device), ("dseg".toList, .dseg),
-    ("dw".toList, .dw), ("endm".toList, .endm), ("endmacro".toList, .endmacro),
-    ("equ".toList, .equ), ("eseg".toList, .eseg), ("exit".toList, .exit),
-    ("include".toList, .include), ("includepath".toList, .includepath), ("list".toList, .list),
-    ("listmac".toList, .listmac), ("macro".toList, .macro), ("nolist".toList, .nolist),
-    ("org".toList, .org), ("set".toList, .set), ("define".toList, .define),
-    ("else".toList, .else), ("elif".toList, .elif), ("endif".toList, .endif),
-    ("error".toList, .error), ("if".toList, .if), ("ifdef".toList, .ifdef),
-    ("ifndef".toList, .ifndef), ("message".toList, .message), ("dd".toList, .dd),
-    ("dq".toList, .dq), ("undef".toList, .undef), ("warning".toList, .warning),
-    ("overlap".toList, .overlap), ("nooverlap".toList, .nooverlap), ("pragma".toList, .pragma)]
-  match alookup n tbl with
+  match alookup n Gen.directiveTable with
   | some d => d
   | none => .custom n
 
